@@ -17,7 +17,7 @@ RULE = (
     "(objects ==, numbers identical, registry entries identical); where the current spelling is rejected (cross-type "
     "conversions and constructions with a unit of another quantity type) the legacy spelling is rejected too. Plus FixUnitIfIsLegacy(legacy) == current, idempotent on "
     "all 62 + 1548 symbols, no current symbol rewritten, no legacy spelling registered; spellings combining two legacy fragments (as units "
-    "registered at run time may) are rewritten by the whole chain, idempotently, and alias a run-time unit exactly. Objects created with the legacy spelling in a category registered a moment ago with that spelling carry the current spelling and equal the current-spelled ones. Every cell is non-trivial "
+    "registered at run time may) are rewritten by the whole chain, idempotently, and alias a run-time unit exactly. Objects created with the legacy spelling in a category registered a moment ago with that spelling carry the current spelling and equal the current-spelled ones. Registration through from_category with explicitly given units (valid_units, default_unit, an unknown unit) behaves like the direct form. Every cell is non-trivial "
     "(an alias resolution); key = (spelling, API entry)."
 )
 ASSUMPTIONS = ["arbitrary strings are outside the domain (the rewrite is a substring chain)", "legacy fragments are an independent copy of the documented list; a pair removed from the library is a violation, a pair added is not"]
@@ -232,11 +232,16 @@ class Checker:
                     ("valid_units only, legacy last", dict(valid_units=others + [base, spelling])),
                     ("default_unit only", dict(default_unit=spelling)),
                     ("default_unit+limits", dict(default_unit=spelling, min_value=0.0, max_value=10.0, default_value=1.0)),
+                    # the same through from_category: units given explicitly next to it are checked and rewritten as well
+                    ("from_category+valid_units", dict(from_category="bv c16 3", valid_units=[spelling] + others)),
+                    ("from_category+default_unit", dict(from_category="bv c16 3", default_unit=spelling)),
+                    ("from_category+unknown unit", dict(from_category="bv c16 3", valid_units=[spelling + "s"])),
                 ]
                 for vi, (vname, kw) in enumerate(variants):
                     name = "bv c16 %d" % vi
                     try:
-                        info = db.AddCategory(name, qt, **{k: (list(v) if isinstance(v, list) else v) for k, v in kw.items()})
+                        kw2 = {k: (list(v) if isinstance(v, list) else v) for k, v in kw.items()}
+                        info = db.AddCategory(name, **kw2) if "from_category" in kw2 else db.AddCategory(name, qt, **kw2)
                         from barril.units import Scalar
 
                         s = Scalar(name)
